@@ -228,9 +228,28 @@ def r1_factory(ctx, mod, pc) -> None:
     raise AnalysisError('factory: test on feasible_values not found')
   fv_true = [m for t_ in fv_tests for m, lab in t_.succs if lab == 'T']
 
-  def is_dup_test(t: str) -> bool:
-    return 'len(set(' in t and 'len(' in t.replace('len(set(', '', 1) and ('!=' in t or '<' in t or '>' in t)
-  dup = raising_test(is_dup_test)
+  def is_dup_test_node(t: ast.AST) -> bool:
+    """len(<distinct view of feasible_values>) compared (!=, <, >) with len(feasible_values)"""
+    if not (isinstance(t, ast.Compare) and len(t.ops) == 1 and isinstance(t.ops[0], (ast.NotEq, ast.Lt, ast.Gt))):
+      return False
+    sides = [t.left, t.comparators[0]]
+    if not all(isinstance(x, ast.Call) and dotted(x.func) == 'len' and len(x.args) == 1 for x in sides):
+      return False
+    args = [x.args[0] if (isinstance(x.args[0], ast.Name) and x.args[0].id in fi.params) else flow.resolve_local(fi.node, x.args[0])
+            for x in sides]
+    def distinct(e):
+      return isinstance(e, ast.Call) and (dotted(e.func) or '').rsplit('.', 1)[-1] in ('set', 'frozenset', 'Counter', 'fromkeys') \
+          and e.args and unparse(e.args[-1], 0) == 'feasible_values'
+    def plain(e):
+      return unparse(e, 0) == 'feasible_values'
+    return (distinct(args[0]) and plain(args[1])) or (distinct(args[1]) and plain(args[0]))
+  dup = []
+  for n_ in g.nodes:
+    if n_.kind == 'test' and is_dup_test_node(n_.ast):
+      from vzstatic.source import parent as _par3
+      ifst = _par3(n_.ast)
+      if isinstance(ifst, ast.If) and ifst.test is n_.ast and ifst.body and isinstance(ifst.body[-1], ast.Raise):
+        dup.append(n_)
   okd = bool(dup) and cn not in g.reachable([x for x in fv_true if x not in dup], blocked=dup, include_starts=True)
   ctx.check(okd, 'R1', 'duplicate feasible values rejected before type inference', fi.node,
             'every path from "feasible values given" to the constructor passes the raising duplicate test',
@@ -475,8 +494,13 @@ def r4_contains(ctx, ss) -> None:
               f'{what} does not raise InvalidParameterError', construct=what, func=fi.qualname)
   c = ss.methods['contains']
   hs = [h for h in ast.walk(c.node) if isinstance(h, ast.ExceptHandler)]
-  ok = len(hs) == 1 and unparse(hs[0].type, 0) == 'InvalidParameterError' and any(
-      isinstance(x, ast.Return) and isinstance(x.value, ast.Constant) and x.value.value is False for x in ast.walk(hs[0]))
+  gc = cfgmod.CFG(c.node)
+  hnodes = [n for n in gc.nodes if n.kind == 'handler']
+  after = gc.reachable(hnodes, include_starts=False) if hnodes else set()
+  rets_after = [n for n in after if n.kind == 'stmt' and isinstance(n.ast, ast.Return)]
+  ok = len(hs) == 1 and unparse(hs[0].type, 0) == 'InvalidParameterError' and bool(rets_after) and all(
+      isinstance(n.ast.value, ast.Constant) and n.ast.value.value is False for n in rets_after) \
+      and gc.exit not in gc.reachable(hnodes, blocked=rets_after, include_starts=False)
   ctx.check(ok, 'R4', 'SearchSpace.contains converts exactly InvalidParameterError', c.node, 'except InvalidParameterError: return False',
             'contains() catches a different class: NotImplementedError for conditional spaces would be answered with False (a wrong answer) '
             'or feasibility errors would escape', construct='contains-handler', func=c.qualname)
